@@ -95,6 +95,11 @@ pub fn gen_case(prop: &str, tier: Tier, seed: u64) -> Case {
             // "following any reopen (clean OR AFTER A CRASH)": the C02 workloads, every crash state
             // continued (overwrite / remove / add / batch, close, reopen)
             let mut c = crashprops::gen_c02(tier, seed);
+            if c.class.contains("many-journals") {
+                // (hundreds of crash states with a dozen journals each, all continued: too slow
+                // for this family; C02 and C04 carry that prelude)
+                return seqprops::gen_c11(tier, seed);
+            }
             c.prop = "C11".into();
             c.class = format!("crash-{}", c.class);
             c
